@@ -416,7 +416,11 @@ impl Prop for C08 {
                 return out;
             }
         };
-        let text = render_event(&m, &c.plan);
+        // an unknown member must really be unknown: one named like a NIP-01 member would be a second `content`, `id`, ...
+        // and make the text denote another event (C01 deals with repeated members)
+        let mut plan = c.plan.clone();
+        plan.unknown.retain(|u| !EVENT_MEMBERS.contains(&u.name.as_str()));
+        let text = render_event(&m, &plan);
         let mut buf = vec![0u8; m.binary_size() + 16];
         let via_json: Result<Result<Option<Result<(), String>>, String>, Fail> = guard("Event::from_json+verify", || {
             match Event::from_json(text.as_bytes(), &mut buf) {
